@@ -460,7 +460,6 @@ impl Ctx<'_> {
                 self.w.stats.ctor_accept.fetch_add(1, Ordering::Relaxed);
                 self.w.class(format!("NewYuv/{tyname}/accept{}", if model.is_err() { "-illformed" } else { "" }));
                 let actual = val_of_yuv(&y);
-                let phys = phys_of_yuv(&y);
                 let expect = yuv_model_val(op);
                 if let Err(conds) = &model {
                     let g = &op.geo;
@@ -510,7 +509,9 @@ impl Ctx<'_> {
                 }
                 // keep what the object actually exposes for config (so that one resolution defect is
                 // reported once, not at every later read), the given samples for data
-                self.w.put(op.slot, Entry { obj: Obj::from_yuv(y), val: Arc::new(actual), phys: Some(Arc::new(phys)) });
+                let obj = Obj::from_yuv(y);
+                let phys = obj.phys().map(Arc::new);
+                self.w.put(op.slot, Entry { obj, val: Arc::new(actual), phys });
             }
             Ok(Err(e)) => {
                 self.w.stats.ctor_reject.fetch_add(1, Ordering::Relaxed);
